@@ -314,7 +314,7 @@ func idlFieldClasses(m *idlModel) map[string]*genDyn {
 					callee := v.Call.StaticCallee()
 					if tc := m.tokens[callee]; tc != nil {
 						d = &genDyn{what: key, first: gcsFrom(tc.First), rest: gcsFrom(tc.Rest)}
-					} else if callee != nil && callee.Name() == "String" && strings.Contains(calleeName(&v.Call), "bytes.Buffer") {
+					} else if callee != nil && callee.Name() == "String" && (strings.Contains(calleeName(&v.Call), "bytes.Buffer") || strings.Contains(calleeName(&v.Call), "strings.Builder")) {
 						d = &genDyn{what: key, first: gcsAny(), rest: gcsAny()}
 					} else if m.a.isCursorMethod(callee) {
 						// regexp-based reader: union of its constant patterns
